@@ -65,7 +65,18 @@ def make_rasters(rng, n, shapes):
             for c in range(W):
                 if not mask[r][c] and rng.random() < 0.08:
                     vals[r][c] = "nan"
-        out.append(dict(H=H, W=W, xs=xs, ys=ys, sx=sx, sy=sy, metric=metric, vals=vals, mask=mask))
+        ras = dict(H=H, W=W, xs=xs, ys=ys, sx=sx, sy=sy, metric=metric, vals=vals, mask=mask, targets=[], dtype=None)
+        u = rng.random()
+        if u < 0.25:
+            # explicit target value 0: a halo filled with 0 instead of NaN would create phantom targets
+            ras["vals"] = [[0 if mask[r][c] else rng.choice([3, 4, 5]) for c in range(W)] for r in range(H)]
+            ras["targets"] = [0]
+        elif u < 0.45:
+            # repeated target values
+            ras["vals"] = [[rng.choice([1, 2]) * mask[r][c] for c in range(W)] for r in range(H)]
+        if rng.random() < 0.3 and all(not isinstance(v, str) for row in ras["vals"] for v in row):
+            ras["dtype"] = rng.choice(["int32", "uint8", "int64", "float32"])
+        out.append(ras)
     return out
 
 
@@ -153,7 +164,9 @@ def run(ctx):
         for k in ks:
             mx, b2, mn = max_of(ras["metric"], k)
             base = {"H": H, "W": W, "vals": ras["vals"], "xs": ras["xs"], "ys": ras["ys"], "metric": ras["metric"],
-                    "max": mx, "bound2": b2, "maxn": mn, "targets": [], "events": False, "exact": 0}
+                    "max": mx, "bound2": b2, "maxn": mn, "targets": ras.get("targets", []), "events": False, "exact": 0}
+            if ras.get("dtype"):
+                base["dtype"] = ras["dtype"]
             np_jobs.append(dict(base, tag="numpy"))
             npi = len(np_jobs) - 1
             nch = len(allch) if (ctx.tier == "thorough" or is_small) else 10
@@ -207,7 +220,7 @@ def evaluate(ctx, rng, np_jobs, dk_jobs, meta, compiled=None):
                       "kint": 1 if isinstance(k, tuple) else 0, "bound2": dk["bound2"], "maxn": dk["maxn"],
                       "np": {"prox": nc_["prox"], "alloc": nc_["alloc"], "dir": nc_["dir"]},
                       "dk": {"prox": dk["prox"], "alloc": dk["alloc"], "dir": dk["dir"]},
-                      "overlap": dk["overlap"], "lazy": int(dk["lazy_ok"]),
+                      "overlap": dk["overlap"], "lazy": int(dk["lazy_ok"]), "vcode": dk["vcode"],
                       "rowcuts": rc, "colcuts": cc, "model": 1 if (is_small and mode == "interp") else 0})
         keep.append((dk, k, rc, cc, mode))
     ctx.extra["skipped_halo_larger_than_raster"] = skipped
